@@ -22,6 +22,22 @@ checks["C09"] = dict(
    technique="stateless model checking of the real coroutine hand-off code under a controlled cooperative scheduler: deviation(preemption)-bounded DFS over all schedules of every action history up to a depth bound, with a vector-clock happens-before monitor, deadlock and goroutine-leak detection",
    text="Every history of coroutine actions (create/wrap/resume/call/yield/return/error/close/status/to-be-closed scopes incl. handlers that act/pcall/CPU- and memory-limited callcontext/spin) over 2-3 coroutines up to the depth bound is executed on the real runtime, with runtime/thread.go's mutexes, channel operations and go statement routed through the vsched scheduler (instrumented copy generated from the current working tree and mounted by go build -overlay). For each history ALL schedules with at most the stated number of preemptions are explored (quick: depth 3/bound 2 and depth 4/bound 1; thorough: depth 4/bound 3, depth 5/bound 1, depth 6/bound 0, budget capped and reported). Oracle on every execution: no Go panic in any goroutine, no deadlock, no unordered conflicting access to Thread.status/caller/closeErr/currentCont, the runtime context manager or the VM loop (vector clocks over spawn/lock/send/receive/close edges), parked goroutines at the end = live coroutines (no leak), and the observation (emit trace, results, final statuses) equals that of the default schedule.",
    note="Trusted: the rewriter's purely syntactic substitution (sync.Mutex, chan, go, close) and the marked access locations; sequentially consistent interleavings only (weak memory is outside the model); the luagc pool mutex is not driven because the finaliser seam keeps Go's finaliser goroutine out. Value-transfer/status semantics against a reference model is covered by the histories family once reflua is available.")
+
+checks["C07"] = dict(
+   level="model_checking", design="§4 C07",
+   technique="explicit-state model checking of the real context stack: BFS over operation histories (successor = replay on a fresh Runtime + 1 op, canonical-state dedup) in lock-step with an unbounded-integer reference model (refctx); plus exhaustive enumeration of callcontext/pcall/coroutine/<close> nestings x a grid of outermost CPU limits through Lua",
+   text="Part A: every history of PushContext(def)/PopContext/RequireCPU/RequireMem/ReleaseMem/LinearRequire/SetStopLevel/KillContext/Parent().SetStopLevel over limits and amounts in {0=unlimited,1,2,5,2^63,2^64-1} and 4 flag sets is executed on a real Runtime (full 5210-operation alphabet to depth 2-3, reduced 56-operation alphabet to depth 4 quick / 5-6 thorough with budget cap reported), from the root and from a two-deep nearly exhausted stack; after every operation the whole stack (hard, soft, used, flags, status, due) is compared with refctx and with the property's sentences directly (used < kill, child.kill <= parent remaining, soft <= hard, flags superset, pop charges the parent exactly, due iff soft limit reached or stop requested, no Go panic other than the termination signal). Part B: all nestings <= 3 of 11 wrappers (callcontext with smaller/larger limits, pcall, coroutine.wrap, <close> handler, ...) around 5 leaves, each swept over outermost CPU limits (14 values quick; every L in 1..400 thorough): no arrangement does more work than the outermost limit, status strings match how the leaf really ended, child budgets never exceed what the parent has left.",
+   note="Trusted: refctx (written from the property statement and quotas.md with math/big). Millis/time budgets are not explored (the clock is read from time.Now). Where the sources leave a choice (rounding in LinearRequire, due of a context created below a stopped one) the model accepts every permitted outcome.")
+checks["C12"] = dict(
+   level="model_checking", design="§4 C12",
+   technique="bounded-exhaustive model checking of the front end: all expression trees up to 3 (quick) / 4 (thorough) operators compared between minimal-parenthesis, full-parenthesis and redundant-parenthesis/whitespace/comment spellings (metamorphic), all literal spellings of a lexical grammar against an independent denotation (reflex), all single-token edits of seed programs against an independent predictive recogniser for the error line",
+   text="All 25/1150/66025 (thorough also 4.2M, budget capped and reported) expression trees over the 21 binary and 4 unary operators are rendered with the minimal parentheses derived from the manual's precedence table and fully parenthesised, with every redundant pair, one-token-per-line, comments and CRLF spellings, and evaluated under 8 leaf valuations (5 symbolic metatable valuations that spell out the evaluated tree): all spellings must agree. Multi-valuedness: 13 receiving contexts x 6 list shapes x 5 producers x 3 parenthesis levels. Literals: 6k-20k numeral spellings, 30k-80k short strings (every byte through every escape style, \\z, line continuations with all four line-end spellings, invalid escapes), every long-bracket string of level 0..3 over contents of length <= 3/4 over {],=,[,LF,CR,a} including empty, comments in every token gap. One exemplar per grammar production in 10 spellings. Error line: every single-token edit of seed programs; golua must reject iff the independent recogniser rejects and report the line of the first token at which no valid chunk can continue.",
+   note="Trusted: reflex (own lexer/denotation with math/big and strconv.ParseFloat; own predictive recogniser for the manual's section 9 grammar). Error message texts are never compared. Edits that only produce semantic (goto/label/const) errors are skipped.")
+checks["C15"] = dict(
+   level="model_checking", design="§4 C15",
+   technique="bounded-exhaustive model checking: every pattern of <= 3-4 tokens over a 25-token alphabet (malformed included) x every subject up to a length bound over a 3-letter alphabet x every init, through find/match/gmatch/gsub (13 replacement variants) and the Go pattern API, against a definitional backtracking matcher (refpattern)",
+   text="All token sequences up to the bound are compiled and matched by the real lib/stringlib/pattern and string.find/match/gmatch/gsub against every subject and every start position (incl. omitted, negative, past the end); span, captures (position captures as integers), gmatch iteration sequence, gsub result string and count (string/table/function replacements, %0..%2, n = 0..3) must equal the reference; a malformed pattern must raise a Lua error or fail to match, never match, never panic; character classes are compared on every byte 0..127; CPU: under small CPU limits pathological backtracking is killed, a run that completes never used more than its limit, and work that necessarily grows with the subject is charged.",
+   note="Trusted: refpattern (definitional matcher typed from manual 6.4.1). Skipped as unspecified: gmatch with a leading ^, %f not followed by a set, more than 9 captures, locale dependent classes beyond ASCII.")
 not_yet = {}
 m = {
  "version": 1,
